@@ -103,7 +103,10 @@ def _child(plan, wfd):
     pin_path = plan["pin_path"]
     if os.path.exists(pin_path):
         os.unlink(pin_path)
-    if plan["needchg"] == "f":
+    if plan.get("pin_file") is not None:
+        with open(pin_path, "wb") as f:          # a PIN file that is there but holds no valid PIN
+            f.write(bytes.fromhex(plan["pin_file"]))
+    elif plan["needchg"] == "f":
         with open(pin_path, "wb") as f:
             f.write(bringup.GOOD_PIN)
     os.environ["PIN"] = bringup.GOOD_PIN.decode()
@@ -198,15 +201,21 @@ GOOD_ENV = {"onb": "yes", "mode1": "signer", "uiver": [5, 4, 1], "echo": "t", "r
             "newpin": "ack", "mode2": "signer", "appver": [5, 4, 1]}
 
 
-def run_lifetime(scratch, tag, should, causes, v1, rng, start_env=None, plat="ledger", client_lines=None):
+def run_lifetime(scratch, tag, should, causes, v1, rng, start_env=None, plat="ledger", client_lines=None,
+                 variant=None):
     """Fork one manager process. Returns (events, info)."""
     env.setup()
     e = dict(GOOD_ENV)
     needchg = "f"
+    pin_file = None
     if start_env is not None:
         e, needchg = start_env
     elif not should:
-        how = rng.choice(["not_onboarded", "uihb", "old_app", "boot_badpin", "boot_pinchange", "onb_err"])
+        hows = ["not_onboarded", "uihb", "old_app", "boot_badpin", "boot_pinchange", "onb_err",
+                "pin_file_empty", "pin_file_blank", "pin_file_garbage"]
+        how = rng.choice(hows) if variant is None else hows[variant % len(hows)]
+        if plat == "tcp" and how.startswith("pin_file"):
+            how = "not_onboarded"       # the TCPSigner manager has no PIN
         if how == "not_onboarded":
             e["onb"] = "no"
         elif how == "uihb":
@@ -218,6 +227,11 @@ def run_lifetime(scratch, tag, should, causes, v1, rng, start_env=None, plat="le
         elif how == "boot_pinchange":
             e.update(mode1="boot")
             needchg = "t"
+        elif how.startswith("pin_file"):
+            # everything favourable (locked device that would accept the configured default PIN): only the PIN
+            # file stands in the way - it exists but holds nothing usable, so no PIN may be sent at all
+            e.update(mode1="boot")
+            pin_file = {"pin_file_empty": b"", "pin_file_blank": b" \n\t \n", "pin_file_garbage": b"!! not a pin !!\n"}[how]
         else:
             e["onb"] = "err"
     else:
@@ -237,6 +251,7 @@ def run_lifetime(scratch, tag, should, causes, v1, rng, start_env=None, plat="le
         steps.append(step)
         labels.append(label)
     plan = {"seed": rng.random(), "env": e, "needchg": needchg, "v1": v1, "reqs": steps, "plat": plat,
+            "pin_file": None if pin_file is None else pin_file.hex(),
             "pin_path": os.path.join(scratch, "pin_%s.txt" % tag)}
     r, w = os.pipe()
     pid = os.fork()
